@@ -29,6 +29,10 @@ namespace c14
         uint64_t blocks_total = 0;
         bool block_exceeded = false;
         const void* block_pc = nullptr;
+        // third limit: stack depth of the call (runaway recursion ends in a stack overflow long before it ends the block budget)
+        const char* sp0 = nullptr;
+        uint64_t stack_budget = 1u << 20;
+        bool stack_exceeded = false;
         jmp_buf jb;
         Site sites[32];
         int n_sites = 0;
